@@ -19,6 +19,7 @@ import FwdVerif.Lemmas.H2Drain
 import FwdVerif.Lemmas.H2Wire
 import FwdVerif.Model.H2Handoff
 import FwdVerif.Lemmas.H2TableCap
+import FwdVerif.Model.H2Headers
 
 namespace FwdVerif
 namespace C10
@@ -818,6 +819,129 @@ example : wireSettings (inFlightExample.take 2) ∧
   intro e he v hv
   simp only [inFlightExample, List.take, List.mem_cons, List.not_mem_nil, or_false] at he
   rcases he with rfl | rfl <;> simp [tableSizesOf, settingHeaderTableSize] at hv <;> omega
+
+/-! ### header lists and the options of `h2.Config` (`Model/H2Headers.lean`)
+
+  Between the relay's HPACK decoder and its encoder a header list passes through the loop of
+  `encodeFull`, which also writes the debug dump when `EnableDebugLogs` is on.  What the receiving
+  endpoint decodes — names, VALUES, never-indexed marks, order, count — is the list that was sent,
+  whatever the option says; this for every schedule of header blocks of both directions (HEADERS,
+  trailers, PUSH_PROMISE).  The frame machine of the other theorems is not given the option at all. -/
+
+/-- the fields written to the encoder are the decoded fields, in order, for either setting -/
+theorem c10_encode_full_writes_the_decoded_list (debug : Bool) (hs : List HField) :
+    (encodeFull debug hs).2 = hs := by
+  induction hs with
+  | nil => rfl
+  | cons h t ih =>
+    simp only [encodeFull, encodeFullWith, List.map_cons, encodeField] at ih ⊢
+    rw [ih]
+
+/-- **header lists are relayed verbatim**: every header block of a schedule is decoded by its receiver
+    to the list its sender encoded — names, values and never-indexed marks, in order — under every
+    configuration -/
+theorem c10_header_lists_relayed_verbatim (c : RelayCfg) (evs : List HEv) : relayLists c evs = evs := by
+  induction evs with
+  | nil => rfl
+  | cons e t ih =>
+    simp only [relayLists, relayListsWith, List.map_cons] at ih ⊢
+    rw [ih]
+    have : relayListWith encodeField c e.list = e.list := c10_encode_full_writes_the_decoded_list _ _
+    rw [this]
+
+/-- **the logging option changes no relayed header**: for every schedule the receivers decode the same
+    lists (names and values, in order) whether `EnableDebugLogs` is on or off — and whatever else the
+    two configurations differ in -/
+theorem c10_header_values_independent_of_debug_logs (c c' : RelayCfg) (evs : List HEv) :
+    relayLists c evs = relayLists c' evs := by
+  rw [c10_header_lists_relayed_verbatim, c10_header_lists_relayed_verbatim]
+
+/-- in particular the two settings of the option, everything else equal -/
+theorem c10_header_values_same_with_logs_on_and_off (c : RelayCfg) (evs : List HEv) :
+    relayLists { c with debugLogs := true } evs = relayLists { c with debugLogs := false } evs :=
+  c10_header_values_independent_of_debug_logs _ _ evs
+
+/-- what the option does change: the debug dump is the whole list when it is on, empty when it is off -/
+theorem c10_debug_dump (hs : List HField) : (encodeFull true hs).1 = hs ∧ (encodeFull false hs).1 = [] := by
+  induction hs with
+  | nil => exact ⟨rfl, rfl⟩
+  | cons h t ih =>
+    simp only [encodeFull, encodeFullWith, List.map_cons, encodeField, List.filterMap_cons, if_true,
+      Bool.false_eq_true, if_false] at ih ⊢
+    exact ⟨by rw [ih.1], ih.2⟩
+
+/-- the frame machine is started without the option: flow control, splitting, order and delivery of
+    every schedule are those of the other theorems for both settings -/
+theorem c10_frame_machine_independent_of_debug_logs (c : RelayCfg) (b : Bool) (evs : List (Ev α)) :
+    Relay.run (Relay.startCfg { c with debugLogs := b }) evs = Relay.run (Relay.startCfg c) evs := rfl
+
+/-- a request with an `authorization` field ("a" / "secret") its sender marked never indexed, and the
+    response with an indexable field, as one schedule -/
+def sensitiveExample : List HEv :=
+  [ { side := .client, sid := 1,
+      list := [ { name := [58, 112], value := [47] },
+                { name := [97], value := [115, 101, 99, 114, 101, 116], sensitive := true } ] },
+    { side := .server, sid := 1, list := [ { name := [58, 115], value := [50, 48, 48] } ] } ]
+
+/-- **witness** (a loop body that redacts the value of a never-indexed field on the range copy before
+    printing it, `encodeFieldRedacting`): with the option on, the server decodes "[redacted]" in place of
+    the value the client sent — same names, same marks, same order and count — while with the option
+    off the same schedule is relayed verbatim; so for that body the relayed values DO depend on the
+    option, and only a run with the option on AND a never-indexed field shows it. -/
+theorem c10_redacting_loop_body_witness :
+    relayListsWith encodeFieldRedacting { debugLogs := true } sensitiveExample ≠
+      relayListsWith encodeFieldRedacting { debugLogs := false } sensitiveExample ∧
+    relayListsWith encodeFieldRedacting { debugLogs := false } sensitiveExample = sensitiveExample ∧
+    (relayListsWith encodeFieldRedacting { debugLogs := true } sensitiveExample).map
+        (fun e => e.list.map fun h => (h.name, h.sensitive)) =
+      sensitiveExample.map (fun e => e.list.map fun h => (h.name, h.sensitive)) ∧
+    (relayListsWith encodeFieldRedacting { debugLogs := true } sensitiveExample).map
+        (fun e => e.list.map (·.value)) = [[[47], redacted], [[50, 48, 48]]] := by
+  decide
+
+/-- the same body is invisible without the option, for every schedule … -/
+theorem c10_redacting_loop_body_silent_without_logs (c : RelayCfg) (h : c.debugLogs = false) (evs : List HEv) :
+    relayListsWith encodeFieldRedacting c evs = evs := by
+  have hl : ∀ hs : List HField, relayListWith encodeFieldRedacting c hs = hs := by
+    intro hs
+    induction hs with
+    | nil => rfl
+    | cons x t ih =>
+      simp only [relayListWith, encodeFullWith, List.map_cons, encodeFieldRedacting, h, Bool.false_and,
+        Bool.false_eq_true, if_false] at ih ⊢
+      rw [ih]
+  induction evs with
+  | nil => rfl
+  | cons e t ih =>
+    simp only [relayListsWith, List.map_cons] at ih ⊢
+    rw [ih, hl]
+
+/-- … and without a never-indexed field, whatever the option says -/
+theorem c10_redacting_loop_body_silent_without_sensitive_fields (c : RelayCfg) (evs : List HEv)
+    (h : ∀ e ∈ evs, ∀ f ∈ e.list, f.sensitive = false) :
+    relayListsWith encodeFieldRedacting c evs = evs := by
+  have hl : ∀ hs : List HField, (∀ f ∈ hs, f.sensitive = false) → relayListWith encodeFieldRedacting c hs = hs := by
+    intro hs
+    induction hs with
+    | nil => intro _; rfl
+    | cons x t ih =>
+      intro hx
+      have h1 := hx x (List.mem_cons_self ..)
+      have h2 := ih (fun f hf => hx f (List.mem_cons_of_mem _ hf))
+      simp only [relayListWith, encodeFullWith, List.map_cons, encodeFieldRedacting, h1, Bool.and_false,
+        Bool.false_eq_true, if_false] at h2 ⊢
+      rw [h2]
+  induction evs with
+  | nil => rfl
+  | cons e t ih =>
+    have h1 := hl e.list (h e (List.mem_cons_self ..))
+    have h2 := ih (fun e' he' => h e' (List.mem_cons_of_mem _ he'))
+    simp only [relayListsWith, List.map_cons] at h2 ⊢
+    rw [h2, h1]
+
+-- the schedule of the witness has a never-indexed field and is relayed verbatim by the tree's loop body
+example : relayLists { debugLogs := true } sensitiveExample = sensitiveExample ∧
+    (sensitiveExample.any fun e => e.list.any (·.sensitive)) = true := by decide
 
 end C10
 end FwdVerif
